@@ -830,7 +830,8 @@ def _getattr_slot(obj, path, what):
     *subobjs, pname = path.split('.')
     for attr in subobjs:
         obj = getattr(obj, attr, None)
-    if not isinstance(obj, Parameterized) or pname not in obj.param:
+    if not (isinstance(obj, Parameterized) or
+            (isinstance(obj, type) and issubclass(obj, Parameterized))) or pname not in obj.param:
         return None
     return getattr(obj.param[pname], what, None)
 
